@@ -48,8 +48,17 @@ def app_context():
         app.timeoutlen = None
         sa = set_app(app)
         sa.__enter__()
-        _APP = (app, cm, sa)
+        import asyncio
+        _APP = (app, cm, sa, asyncio.new_event_loop())
     return _APP[0]
+
+
+def new_application_run():
+    """the application is 'running' and not finished: app.future is a fresh pending future, so that
+    event.app.exit() works and app.is_done is what KeyProcessor reads"""
+    app = app_context()
+    app.future = _APP[3].create_future()
+    return app
 
 
 class Env:
@@ -137,13 +146,21 @@ class CountingDeque(deque):
         r.on_pop(x)
         return x
 
+    def extendleft(self, it):
+        items = list(it)
+        r = self.run
+        if not r.in_handler:
+            # _process hands the pending keys back (application finished); the front of the queue is then reversed(items)
+            r.on_back(list(reversed(items)))
+        super().extendleft(items)
+
 
 class KPRun:
     def __init__(self, case, wrap=0):
         from prompt_toolkit.key_binding.key_bindings import (ConditionalKeyBindings, DynamicKeyBindings,
                                                              KeyBindings, merge_key_bindings)
         from prompt_toolkit.key_binding.key_processor import KeyPress, KeyProcessor, _Flush
-        app_context()
+        self.app = new_application_run()
         _, env, bindings, ops, fuel = case
         self.KM = keymap()
         self.RK = {v: k for k, v in self.KM.items()}
@@ -177,6 +194,9 @@ class KPRun:
         self.last_item_flush = False
         self.calls = []       # oracle records
         self.drops = []
+        self.backs = []
+        self.in_handler = False
+        self.watchdog_s = 10
         self.raise_info = None
 
     def to_item(self, k):
@@ -189,6 +209,7 @@ class KPRun:
         k = self.from_item(kp)
         self.sync(len(self.p.key_buffer))     # the generator is at `yield`: settle the drops of the previous send
         self.popped.append(k)
+        self.events.append([4, k])
         self.since_pop = 0
         self.last_item_flush = (k == -1)
         if k != -1:
@@ -209,8 +230,25 @@ class KPRun:
         self.accounted = pos
         return pos
 
+    def on_back(self, items):
+        p = self.p
+        bufsnap = [self.RK.get(k.key, -7) for k in p.key_buffer]
+        pos = self.sync(len(bufsnap))
+        keys = [self.from_item(x) for x in items]
+        self.events.append([3, keys])
+        self.backs.append({"handed_back": keys, "buffer": bufsnap, "pending_in_input_order": self.stream[pos:]})
+        self.since_pop += 1
+        self.accounted = pos + len(bufsnap)
+
     def make_handler(self, idx, acts):
         def handler(event):
+            self.in_handler = True
+            try:
+                return body(event)
+            finally:
+                self.in_handler = False
+
+        def body(event):
             p = event.key_processor
             bufsnap = [self.RK.get(k.key, -7) for k in p.key_buffer]
             ks = [self.RK.get(k.key, -7) for k in event.key_sequence]
@@ -229,7 +267,14 @@ class KPRun:
                     self.raise_info = (bufsnap[len(ks):], [self.from_item(x) for x in p.input_queue])
                     raise HandlerError()
                 elif a[0] == 2:
+                    self.events.append([5, a[1], a[2]])
                     p.feed_multiple([self.to_item(k) for k in a[2]], first=bool(a[1]))
+                elif a[0] == 3:
+                    try:
+                        event.app.exit()
+                    except Exception:
+                        self.raise_info = (bufsnap[len(ks):], [self.from_item(x) for x in p.input_queue])
+                        raise HandlerError()
         return handler
 
     def run(self):
@@ -238,16 +283,21 @@ class KPRun:
         p = self.p
         for its in self.ops:
             if len(its) == 1 and its[0] <= -2:
-                # a condition changes outside any handler
-                c = -2 - its[0]
-                if c < self.nenv:
-                    self.env.v[c] = not self.env.v[c]
+                if its[0] == -1000:
+                    # the application is finished from outside a handler
+                    if not self.app.is_done:
+                        self.app.exit()
+                else:
+                    # a condition changes outside any handler
+                    c = -2 - its[0]
+                    if c < self.nenv:
+                        self.env.v[c] = not self.env.v[c]
                 buf = [self.RK.get(k.key, -7) for k in p.key_buffer]
                 q = [self.from_item(x) for x in p.input_queue]
                 envv = [1 if x else 0 for x in self.env.v[:self.nenv]]
-                out.append([0, [], [], buf, q, envv])
+                out.append([0, [], [], buf, q, envv, 1 if self.app.is_done else 0])
                 self.op_records.append({"status": 0, "events": [], "popped": [], "buf": buf, "queue": q, "env": envv,
-                                        "calls": [], "drops": [], "after_raise": None, "last_flush": self.last_item_flush,
+                                        "calls": [], "drops": [], "backs": [], "done": self.app.is_done, "after_raise": None, "last_flush": self.last_item_flush,
                                         "since_pop": self.since_pop, "stream": list(self.stream), "accounted": self.accounted,
                                         "items": its, "ext_flip": True})
                 continue
@@ -256,10 +306,12 @@ class KPRun:
             self.events, self.popped, self.sends, self.raise_info = [], [], 0, None
             ncalls0 = len(self.calls)
             ndrops0 = len(self.drops)
+            nbacks0 = len(self.backs)
+            done0 = self.app.is_done
             p.feed_multiple([self.to_item(k) for k in its])
             status = 0
             try:
-                with_watchdog(p.process_keys, 10)
+                with_watchdog(p.process_keys, self.watchdog_s)
             except HandlerError:
                 status = 1
             except Abort:
@@ -286,9 +338,9 @@ class KPRun:
                 out.append([97])
                 self.op_records.append({"status": 97})
                 break
-            out.append([status, self.events, self.popped, buf, q, envv])
+            out.append([status, self.events, self.popped, buf, q, envv, 1 if self.app.is_done else 0])
             self.op_records.append({"status": status, "events": self.events, "popped": self.popped, "buf": buf,
-                                    "queue": q, "env": envv, "calls": self.calls[ncalls0:], "drops": self.drops[ndrops0:],
+                                    "queue": q, "env": envv, "calls": self.calls[ncalls0:], "drops": self.drops[ndrops0:], "backs": self.backs[nbacks0:], "done": self.app.is_done, "done0": done0,
                                     "after_raise": after_raise, "last_flush": self.last_item_flush,
                                     "since_pop": self.since_pop, "stream": list(self.stream),
                                     "accounted": self.accounted, "items": its})
@@ -383,7 +435,18 @@ def kp_oracle(case, recs):
             if r["after_raise"] != ([], []):
                 return ("handler exception did not leave the processor reset (key_buffer/input_queue not empty)", "exception-reset",
                         {"op": n, "after": r["after_raise"]})
-        if r["status"] == 0 and not r.get("ext_flip"):
+        for bk in r["backs"]:
+            if not (bk["handed_back"] == bk["buffer"] == bk["pending_in_input_order"]):
+                return ("the application was finished by a handler and the pending keys were not handed back to the input queue "
+                        "in the order they were typed", "hand-back-order", bk)
+        if r["backs"] and r["status"] == 0:
+            hb = r["backs"][-1]["handed_back"]
+            if r["queue"][:len(hb)] != hb or r["buf"]:
+                return ("after the application was finished the keys not delivered are not at the front of the input queue, in input order",
+                        "hand-back-order", {"op": n, "queue": r["queue"], "expected_front": hb})
+        if r["status"] == 0 and r["done"] and r.get("done0") and (r["popped"] or r["events"]):
+            return ("keys were processed although the application was already finished", "done-stops", {"op": n})
+        if r["status"] == 0 and not r.get("ext_flip") and not r["done"]:
             buf, e = r["buf"], r["env"]
             if r["queue"]:
                 return ("process_keys returned with a non-empty input queue", "queue", {"op": n})
@@ -677,8 +740,10 @@ def rand_binding(rng, hid, alpha=(1, 2, 3, 4), acts=True):
             r = rng.random()
             if r < 0.5:
                 al.append([0, rng.randrange(NCOND)])
-            elif r < 0.68:
+            elif r < 0.66:
                 al.append([1])
+            elif r < 0.76:
+                al.append([3])
             else:
                 al.append([2, rng.randint(0, 1), [rng.choice(list(alpha) + [-1]) for _ in range(rng.choice([1, 1, 2]))]])
     return [rand_keys(rng, alpha), f, eg, 1 if rng.random() < 0.3 else 0, hid, al]
@@ -689,16 +754,19 @@ def gen_keyproc(chk, dist):
     thorough = chk.tier == "thorough"
     cases, wraps = [], []
     # (a) small scope: every pair of bindings from a pool x every item sequence up to length 4
-    pool_keys = [[1], [2], [0], [1, 1], [1, 2], [2, 1], [1, 0], [0, 1], [0, 0], [2, 2], [2, 0], [0, 2]]
+    pool_keys = [[1], [2], [0], [1, 1], [1, 2], [2, 1], [1, 0], [0, 1], [0, 0], [2, 2], [2, 0], [0, 2],
+                 [1, 1, 1], [1, 2, 2], [0, 1, 2]]
     pool = []
     for ks in pool_keys:
         for f in ([0], [2, 0], [3, [2, 0]]):
             for eg in ([1], [0], [2, 0]):
                 pool.append([ks, f, eg, 0, 0, []])
+    for ks in ([1], [2], [0], [1, 2]):
+        pool.append([ks, [0], [1], 0, 0, [[3]]])      # the handler finishes the application (app.exit())
     seqs = []
     for n in range(1, 5):
         seqs += [list(s) for s in itertools.product([1, 2, -1, -2], repeat=n)]
-    frac = 0.12 if thorough else 0.004
+    frac = 0.06 if thorough else 0.003
     sfrac = 1.0 if thorough else 0.35
     singles = [[b] for b in pool]
     pairs = [[a, b] for a in pool for b in pool]
@@ -719,7 +787,7 @@ def gen_keyproc(chk, dist):
         ops = []
         for _ in range(rng.randint(1, 12)):
             if rng.random() < 0.08:
-                ops.append([-2 - rng.randrange(NCOND)])
+                ops.append([-2 - rng.randrange(NCOND)] if rng.random() < 0.9 else [-1000])
                 continue
             ops.append([rng.choice(list(alpha) + [alpha[0], -1] + ([0] if rng.random() < 0.1 else []))
                         for _ in range(rng.choice([1, 1, 1, 2, 3]))])
@@ -873,6 +941,12 @@ def impl_case(case, wrap=0):
     if fam == 1:
         r = KPRun(case, wrap)
         out = r.run()
+        if any(isinstance(x, list) and x and x[0] == 98 for x in out):
+            # the watchdog fired: on a loaded machine that can be a stall of this process, not a hang of
+            # process_keys (a real hang is deterministic) - run the case again with a long watchdog
+            r = KPRun(case, wrap)
+            r.watchdog_s = 120
+            out = r.run()
         return out, kp_oracle(case, r.op_records)
     if fam == 2:
         out, recs = fl_impl(case)
@@ -888,7 +962,7 @@ FAMILY = {1: "keyproc", 2: "filters", 3: "registry"}
 def nontrivial(case, out):
     fam = case[0]
     if fam == 1:
-        return any(isinstance(r, list) and len(r) > 1 and r[1] for r in out)
+        return any(isinstance(r, list) and len(r) > 1 and any(ev[0] == 0 for ev in r[1]) for r in out)
     if fam == 2:
         return any(o[0] >= 3 for o in case[2])
     return any(isinstance(r, list) and len(r) > 1 and r[1] for r in out)
@@ -923,7 +997,7 @@ def main(tier):
     t0 = time.time()
     impl_results = []
     oracle_bad = set()
-    evcount = {"invoke": 0, "drop": 0, "raised": 0, "fuel": 0}
+    evcount = {"invoke": 0, "drop": 0, "raised": 0, "handed_back": 0, "pop": 0, "fed": 0, "fuel": 0}
     for i, c in enumerate(cases):
         out, bad = impl_case(c, wraps[i])
         impl_results.append(out)
@@ -932,7 +1006,7 @@ def main(tier):
             for r in out:
                 if len(r) > 1:
                     for ev in r[1]:
-                        evcount[{0: "invoke", 1: "drop", 2: "raised"}.get(ev[0], "invoke")] += 1
+                        evcount[{0: "invoke", 1: "drop", 2: "raised", 3: "handed_back", 4: "pop", 5: "fed"}.get(ev[0], "invoke")] += 1
                 else:
                     evcount["fuel"] += 1
         if bad:
@@ -992,16 +1066,17 @@ def main(tier):
     chk.coverage["rule"] = (
         "three case families run on the real objects and on the Coq model: (1) a real KeyProcessor over a real KeyBindings "
         "(optionally behind merge/dynamic/conditional wrappers) fed key presses and _Flush items op by op; compared per op: "
-        "handler invocations (binding index, key_sequence), dropped keys, exception + discarded keys, popped items, key_buffer, "
-        "input_queue, condition values; small scope = single bindings and a %s sample of every pair from a pool of 108 bindings "
+        "handler invocations (binding index, key_sequence), dropped keys, exception + discarded keys, keys handed back when a handler "
+        "finished the application, pops, handler feeds, popped items, key_buffer, "
+        "input_queue, condition values; small scope = single bindings and a %s sample of every pair from a pool of 139 bindings "
         "(keys over {a,b,Any} up to length 2 x filter {Always,c,~c} x eager {no,yes,c}) x both condition values x every sequence over "
         "{a,b,Flush,external flip of c} up to length 4; (2) histories of & | ~ over real Filter objects, compared by object identity, class, "
         "children and truth table; (3) add/remove/lookup histories through real KeyBindings and the four wrappers, compared by "
         "(keys, handler, filter truth table, eager truth table, is_global, record_in_macro, save_before identity); bindings are added as plain "
         "functions and as pre-built Binding objects (key_binding decorator). non-trivial = some handler fired / some operator "
-        "applied / some lookup returned a binding; distinct by hash of the whole case" % ("12%" if chk.tier == "thorough" else "0.4%"))
+        "applied / some lookup returned a binding; distinct by hash of the whole case" % ("6%" if chk.tier == "thorough" else "0.3%"))
     chk.assumptions += [
-        "handler effects are data (flip condition / feed keys / raise); a handler that re-enters process_keys or mutates the registry is outside the model",
+        "handler effects are data (flip condition / feed keys / raise / app.exit()); a handler that re-enters process_keys or mutates the registry is outside the model",
         "the timeout is the explicit _Flush item; the asyncio timer (_start_timeout) is disabled (timeoutlen=None)",
         "is_global is a constant per binding; SimpleCache eviction (10000/1000 entries) is not modelled; id() reuse after garbage collection (DynamicKeyBindings version) is not modelled",
         "KeyPressEvent.arg/is_repeat, macro recording, undo save points, vi cursor fix-up are outside the model",
@@ -1031,12 +1106,14 @@ def explain(case, wrap=0):
         print("conditions c0.. = %r; registry = KeyBindings%s" % (case[1], {0: "", 1: " behind merge_key_bindings", 2: " behind DynamicKeyBindings",
                                                                             3: " behind ConditionalKeyBindings(merge([empty, kb]), True)"}[wrap]))
         for i, b in enumerate(case[2]):
-            acts = ["flip c%d" % a[1] if a[0] == 0 else ("raise" if a[0] == 1 else "feed_multiple(%r, first=%r)" % ([KN.get(k, k) for k in a[2]], bool(a[1])))
+            acts = ["flip c%d" % a[1] if a[0] == 0 else ("raise" if a[0] == 1 else "event.app.exit()" if a[0] == 3 else "feed_multiple(%r, first=%r)" % ([KN.get(k, k) for k in a[2]], bool(a[1])))
                     for a in b[5]]
             print("  binding #%d: kb.add(%s, filter=%s, eager=%s) handler does: %s" % (
                 i, ", ".join(repr(KN[k]) for k in b[0]), f_str(b[1]), f_str(b[2]), "; ".join(acts) or "nothing"))
         for o in case[3]:
-            if len(o) == 1 and o[0] <= -2:
+            if o == [-1000]:
+                print("  then app.exit() is called from outside a handler")
+            elif len(o) == 1 and o[0] <= -2:
                 print("  then condition c%d flips (outside any handler)" % (-2 - o[0]))
             else:
                 print("  then feed %r; process_keys()" % [KN.get(k, k) for k in o])
@@ -1084,7 +1161,7 @@ def replay(data):
         explain(case, wrap)
     except Exception as e:  # noqa
         print("(case not explainable: %r)" % (e,))
-    print("per op: [status, events (0 i keys = handler of binding #i called; 1 k = key dropped; 2 = exception, discarded buffer/queue), popped, key_buffer, input_queue, conditions]"
+    print("per op: [status, events (0 i keys = handler of binding #i called; 1 k = key dropped; 2 = exception, discarded buffer/queue; 3 = keys handed back to the queue; 4 = pop; 5 = handler feed), popped, key_buffer, input_queue, conditions, is_done]"
           if case[0] == 1 else "")
     for r in out:
         print("  impl:", r)
